@@ -1,6 +1,7 @@
 package h
 
 import (
+	"bytes"
 	"crypto/sha256"
 	"encoding/binary"
 	"encoding/hex"
@@ -363,6 +364,13 @@ func GenHistory(r *Rng, id int, p GenParams) Case {
 			b = append(b, byte('a'+r.Intn(26)))
 		}
 		co.Launch = string(b[:n])
+	}
+	// the longest launch script that fits, and the shortest that does not
+	switch p.Scenario % 16 {
+	case 5:
+		co.LaunchSet, co.Launch = true, "#!/bin/sh\n"+string(bytes.Repeat([]byte{'x'}, 22))
+	case 13:
+		co.LaunchSet, co.Launch = true, "#!/bin/sh\n"+string(bytes.Repeat([]byte{'x'}, 21))
 	}
 	co.IDKind = r.Intn(3)
 	if co.IDKind == 1 {
